@@ -2080,6 +2080,8 @@ class SX:
                 t = self.ctx.reduce(l.term ** int(r.term.const_value()))
                 return N(t, l.py if isinstance(l, N) else None) if isinstance(l, N) else Dyn(t)
             raise CannotDecide(f'power {ast.unparse(node)[:50]}')
+        if isinstance(l, Sv) and isinstance(r, Sv) and opc == '+':
+            return Sv(l.s + r.s)
         if isinstance(l, (Unk, Sv)) or isinstance(r, (Unk, Sv)):
             return Unk(ast.unparse(node)[:80])
         if isinstance(l, NoneV) or isinstance(r, NoneV):
@@ -2552,6 +2554,8 @@ class SX:
                 and isinstance(args[1], Tv) and not args[1].items:
             # d.setdefault(key, []) is d[key] (created empty on first use): same list as the subscript
             return [(st, self.subscript(recv, args[0], st, frame, n))]
+        if isinstance(recv, Sv) and len(args) == 1 and isinstance(args[0], Sv) and not kwargs and attr in ('endswith', 'startswith'):
+            return [(st, Bv(getattr(recv.s, attr)(args[0].s)))]
         if isinstance(recv, Sv) and all(isinstance(a, Sv) for a in args) and not kwargs and attr in (
                 'replace', 'strip', 'lower', 'upper', 'title', 'lstrip', 'rstrip', 'capitalize'):
             return [(st, Sv(getattr(recv.s, attr)(*[a.s for a in args])))]
